@@ -40,7 +40,7 @@ def thorough_recheck(tier, modules, audit):
 
 
 def run_types(prop, tier, seed, t0):
-    modules = {"C12": ["Ovldverif.Props.C12", "Ovldverif.Props.C12Mirror", "Ovldverif.Lemmas.Fuel"], "C13": ["Ovldverif.Props.C13", "Ovldverif.Lemmas.Fuel"]}[prop]
+    modules = {"C12": ["Ovldverif.Props.C12", "Ovldverif.Props.C12Mirror", "Ovldverif.Props.C13Generic", "Ovldverif.Lemmas.Fuel"], "C13": ["Ovldverif.Props.C13", "Ovldverif.Props.C13Generic", "Ovldverif.Lemmas.Fuel"]}[prop]
     modules = [m for m in modules if os.path.exists(os.path.join(fw.LEAN_DIR, m.replace(".", "/") + ".lean")) and m in open(os.path.join(fw.LEAN_DIR, "Ovldverif.lean")).read()]
     audit = fw.lean_audit(modules)
     thorough_recheck(tier, modules, audit)
@@ -101,17 +101,17 @@ SPECS = {
     "C01": dict(modules=["Ovldverif.Props.C01", "Ovldverif.Props.C01Dep"], streams=["fn", "fn_rich", "dep_f", "dep_e", "dep_comb", "rewrite", "dep_lit"], oracle="C01"),
     "C10": dict(modules=["Ovldverif.Props.C10", "Ovldverif.Props.C10Order"], streams=["dep_e", "dep_f", "dep_lit", "dep_comb"], oracle="C10"),
     "C11": dict(modules=["Ovldverif.Props.C11", "Ovldverif.Props.C11Comb", "Ovldverif.Props.C10", "Ovldverif.Props.C15"], streams=["dep_e", "dep_f", "dep_lit", "dep_comb", "annotations"], oracle="C11"),
-    "C02": dict(modules=["Ovldverif.Props.C02"], streams=["table_static", "fn_static", "levels"], oracle="C02"),
+    "C02": dict(modules=["Ovldverif.Props.C02", "Ovldverif.Props.C02Twin"], streams=["table_static", "fn_static", "levels"], oracle="C02"),
     "C03": dict(modules=["Ovldverif.Props.C03"], streams=["fn", "fn_static"], oracle="C03"),
     "C04": dict(modules=["Ovldverif.Props.C04"], streams=["table_static", "table_rich", "fn", "dep_f"], oracle="C04"),
     "C05": dict(modules=["Ovldverif.Props.C05", "Ovldverif.Props.C16"], streams=["table_static", "table_rich", "fn", "fn_types", "graph"], oracle="C05"),
     "C06": dict(modules=["Ovldverif.Props.C06", "Ovldverif.Props.C10"], streams=["table_static", "fn_static", "levels", "levels_rich", "dep_f", "dep_lit_f"], oracle="C06"),
-    "C07": dict(modules=["Ovldverif.Props.C07", "Ovldverif.Props.C07Chain"], streams=["table_static", "fn_static", "levels", "graph"], oracle="C07"),
-    "C20": dict(modules=["Ovldverif.Props.C20"], streams=["table_rich", "fn", "dep_f", "fn_types", "graph"], oracle="C20"),
+    "C07": dict(modules=["Ovldverif.Props.C07", "Ovldverif.Props.C07Chain", "Ovldverif.Props.C02Twin"], streams=["table_static", "fn_static", "levels", "graph", "dep_f", "dep_lit_f"], oracle="C07"),
+    "C20": dict(modules=["Ovldverif.Props.C20", "Ovldverif.Props.C20Build"], streams=["table_rich", "fn", "dep_f", "fn_types", "graph", "conc_first"], oracle="C20"),
     "C09": dict(modules=["Ovldverif.Props.C09", "Ovldverif.Props.C09Stmt"], streams=["rewrite", "rewrite_struct"], oracle="C09"),
     "C16": dict(modules=["Ovldverif.Props.C16"], streams=["graph"], oracle="C16"),
     "C18": dict(modules=["Ovldverif.Props.C18", "Ovldverif.Props.C18Resolve", "Ovldverif.Props.C18Tree"], streams=["build", "table_cut", "table_cut_rich"], oracle="C18"),
-    "C08": dict(modules=["Ovldverif.Props.C08", "Ovldverif.Props.C09"], streams=["graph", "graph_deep", "rewrite"], oracle="C08"),
+    "C08": dict(modules=["Ovldverif.Props.C08", "Ovldverif.Props.C09"], streams=["graph", "graph_deep", "rewrite", "graph_self"], oracle="C08"),
     "C15": dict(modules=["Ovldverif.Props.C15"], streams=["annotations"], oracle="C15"),
     "C14": dict(modules=["Ovldverif.Props.C14"], streams=["annotations", "fn_types"], oracle="C14"),
     "C19": dict(modules=["Ovldverif.Props.C19Build", "Ovldverif.Props.C19Lookup"], streams=["conc"], oracle="C19"),
@@ -139,9 +139,11 @@ STREAMS = {
     "annotations": ("corr_b", "worker", lambda seed, n: (seed + 67, n, {}), "B"),
     "fn_types": ("check_fn", "worker", lambda seed, n: (seed + 71, n, {"static_only": True, "type_args": True, "simple_sigs": True}), "F"),
     # thorough (n = 250): every line of thread 0 is a pre-emption point
+    "conc_first": ("check_conc", "worker", lambda seed, n: (seed + 79, 1 if n <= 100 else 2, {"modes": ["first"], "per": 3, "three": 4}), "K"),
     "conc": ("check_conc", "worker", lambda seed, n: (seed + 73, 4 if n <= 100 else 2, {"exhaustive": n > 100}), "K"),
     "classes": ("corr_j", "worker", lambda seed, n: (seed + 61, n, {}), "J"),
     "graph": ("check_graph", "worker", lambda seed, n: (seed + 19, n, {}), "G"),
+    "graph_self": ("check_graph", "worker_self", lambda seed, n: (seed + 83, n, {}), "G"),
     "graph_deep": ("check_graph", "worker", lambda seed, n: (seed + 23, n, {"nnodes": 6, "recurse_bias": 0.6}), "G"),
 }
 
@@ -179,6 +181,21 @@ def run_generic(prop, tier, seed, t0):
             corr_keep = tot["corr"]
             tot = merge_streams([tot] + extra)
             tot["corr"] = corr_keep
+    # a broken correspondence and no failing input yet: search on — the streams of the layers that broke, sixteen more
+    # batches each with other seeds (never reached on a tree where the correspondence holds)
+    if tot["corr"] and not tot["oracles"].get(spec["oracle"], {}).get("viol"):
+        broke = {c.get("layer") for c in tot["corr"]}
+        more = []
+        for st in spec["streams"]:
+            mod, fn, mk, layer = STREAMS[st]
+            if layer in broke and time.time() - t0 < 240:
+                more += fw.parallel(mod, fn, [mk(seed * 100003 + 7777 + i * 31, per) for i in range(16)])
+        if more:
+            ex = merge_streams(more)
+            if ex["oracles"].get(spec["oracle"], {}).get("viol"):
+                corr_keep = tot["corr"]
+                tot = merge_streams([tot, ex])
+                tot["corr"] = corr_keep
     oc = tot["oracles"].get(spec["oracle"], {"n": 0, "nontrivial": 0, "viol": [], "known": {}})
     known = fw.load_known(prop)
     import witness as wit
